@@ -190,7 +190,8 @@ Proof.
   { destruct (sr_err r); try discriminate Hc1; auto. specialize (Hnl eq_refl). congruence. }
   destruct (node_is_dir_get _ _ Hpd) as (ch0 & m0 & Hpar).
   unfold create_symlink. cbn [f_heap].
-  set (mx := {| m_mode := N.lor MODE_SYMLINK 511; m_uid := us_uid (v_user v); m_gid := us_gid (v_user v) |}).
+  set (mx := {| m_mode := N.lor MODE_SYMLINK 511; m_uid := us_uid (v_user v);
+                m_gid := new_gid v (meta_of (f_heap s) parent) |}).
   rewrite (search_frame (f_heap s) v parent (pi_part (sr_pi r)) (clean Linux t) mx ch0 m0 Hpv Hpar Hos
              SEARCH_FUEL (v_root v) (v_root v) pi 0 r Hrd Hrd Er He Hp eq_refl Hc2).
   cbn [sr_err sr_child is_file_exists negb].
